@@ -1,4 +1,5 @@
 """C15 — results are covariant under translation of the time origin."""
+import warnings
 import numpy as np
 import oqupy
 from oqupy.control import Control
@@ -159,6 +160,35 @@ def run(chk):
             chk.fail("times-not-shifted", f"{driver}: reported times are not shifted by exactly tau={tau}", info)
         elif v0.shape != v1.shape or np.abs(v0 - v1).max() > 2e3 * eps:
             chk.fail("not-translation-covariant", f"{driver}: shifting the time origin by {tau} changes the results by {np.abs(v0 - v1).max():.2e}", info)
+
+    # ---- (d) guessed parameters (parameters=None): the guess made for a shifted problem is the guess for the original one,
+    # so the convenience drivers are covariant as well (a chirped drive: the frequencies seen depend on where one looks) -------
+    for it in range(4 if thorough else 2):
+        tau = rng.choice(TAUS)
+        start, span = rng.choice([0.0, 1.3]), rng.choice([1.0, 1.5])
+        tol = 0.02
+        corr_g = oqupy.PowerLawSD(alpha=0.05, zeta=1, cutoff=1.0, cutoff_type="exponential", temperature=0.0)
+        bath_g = oqupy.Bath(0.5 * SZ, corr_g)
+
+        def sys_of(sh):
+            return oqupy.TimeDependentSystem(lambda t: (2.0 + 3.0 * (t - sh)) * SX + 0.5 * SZ, gammas=[lambda t: 0.1 + 0.05 * (t - sh) ** 2],
+                                             lindblad_operators=[lambda t: SM])
+        info = {"kind": "guessed-parameters", "tau": tau, "start": start, "span": span, "tolerance": tol}
+        try:
+            with warnings.catch_warnings():
+                warnings.simplefilter("ignore")
+                g0 = quiet(oqupy.guess_tempo_parameters, bath_g, start, start + span, sys_of(0.0), tol)
+                g1 = quiet(oqupy.guess_tempo_parameters, bath_g, start + tau, start + tau + span, sys_of(tau), tol)
+        except Exception as ex:
+            chk.fail("shift-raises", f"guess_tempo_parameters raises {ex!r}", info)
+            continue
+        chk.search_cases += 1
+        chk.count("search_guessed_parameters")
+        chk.case(info, ("guess", tau, start, span))
+        # the guess is rounded to four significant figures: allow one unit of the last figure
+        if abs(g0.dt - g1.dt) > 2e-3 * g0.dt or abs(g0.dkmax - g1.dkmax) > 1 or abs(g0.epsrel - g1.epsrel) > 2e-3 * g0.epsrel:
+            chk.fail("guess-not-covariant", f"guess_tempo_parameters: shifting system and interval by {tau} changes the guess "
+                     f"(dt {g0.dt:.6g} -> {g1.dt:.6g}, dkmax {g0.dkmax} -> {g1.dkmax}, epsrel {g0.epsrel:.3g} -> {g1.epsrel:.3g})", info)
 
     return chk.finish(
         level="proof",
